@@ -30,6 +30,20 @@ CLAIMED = {
               "Warnings are not judged. Trusted: reference framer, CPython io."),
         technique=TECH + ": crash-point enumeration of the byte source (EOF/FIN/RST/timeout/EIO) with an EOF-read budget as "
                          "liveness oracle and a reference framer"),
+    "C12": dict(
+        level="exploration", design="4.4",
+        text=("Seeded search over simulated space-link histories: per-APID instrument producers with their own 14-bit counters, "
+              "a multiplexer, and a link that drops, duplicates, delays/reorders, flag-flips and count-jumps packets and restarts "
+              "producers; plus direct histories (flag, APID, counter step per arrival, up to 60 arrivals) and, as a warm-up, every "
+              "history of length <= 4 over 4 flags x 2 APIDs x {in-sequence, gap}. Each arrival is stamped with its arrival index; "
+              "the real packet_generator(combine_segmented_packets=True, secondary_header_bytes=0..8,100) consumes it through "
+              "bytes / simulated disk / simulated socket. Every output and warning is attributed to the arrival being handled and "
+              "compared with a 25-line per-APID reference model run as a nondeterministic acceptor (the one open question, an "
+              "UNSEGMENTED packet inside an open group, is accepted under both readings)."),
+        note=("Histories are sampled (exhaustive only up to length 4); outputs compared by raw_data with a header-only "
+              "definition; warnings are required only where the model drops with a warning, never matched by text."),
+        technique=TECH + ": seeded space-link fault histories (drop/dup/reorder/flag-flip/count-jump/producer restart) checked "
+                         "per arrival against a per-APID reassembly reference model"),
 }
 
 PENDING = {
@@ -73,7 +87,7 @@ def main():
             "technique": c["technique"],
         })
     na = [{"property_id": k, "reason": v} for k, v in sorted(NA.items())]
-    for pid in ("C11", "C12", "C16", "C19"):
+    for pid in ("C11", "C12", "C16", "C19"):  # not yet claimed ones only
         if pid not in claimed:
             na.append({"property_id": pid, "reason": "simulation target (see DESIGN.md section 4); its check is still under "
                                                       "construction in this commit and is therefore not claimed yet."})
